@@ -38,7 +38,12 @@ def run_property(prop, tier, root, seed, cmd):
         repo = Repo(root)
         ctx = Ctx(prop, repo, tier=tier, seed=seed, root=root)
         mod = importlib.import_module(f"sa.props.{prop.lower()}")
-        mod.run(ctx)
+        try:
+            mod.run(ctx)
+        except AnalysisError as e:
+            # the rules that completed before the failure stand: a violation they found is reported (exit 1), otherwise
+            # the run is an analysis error (exit 2) -- never a pass
+            ctx.analysis_errors.append(f"{type(e).__name__}: {e}")
         return finish(ctx, cmd)
     except AnalysisError as e:
         print(f"ANALYSIS-ERROR property={prop} {type(e).__name__}: {e}")
